@@ -22,6 +22,7 @@
 #include "cgns_io.h"
 
 static int fn = -1;
+static int opt_multifam;        /* read AdditionalFamilyName_t under Family_t (cg_nmultifam refuses that position today) */
 static char *W[4096];
 static int NW;
 static int dbg;
@@ -259,6 +260,7 @@ static int do_call(void)
         else if (!strcmp(f, "rind")) rc = cg_rind_write(is);
         else if (!strcmp(f, "gridlocation")) rc = cg_gridlocation_write((CGNS_ENUMT(GridLocation_t))is[0]);
         else if (!strcmp(f, "ptset")) rc = cg_ptset_write((CGNS_ENUMT(PointSetType_t))is[0], cs[2], cs + 3);
+        else if (!strcmp(f, "multifam")) rc = cg_multifam_write(name, strs[0]);
         else if (!strcmp(f, "integral")) rc = cg_integral_write(name);
         else if (!strcmp(f, "state")) rc = cg_state_write(ns ? strs[0] : NULL);
         else if (!strcmp(f, "convergence")) rc = cg_convergence_write(is[0], ns ? strs[0] : NULL);
@@ -514,6 +516,99 @@ static void ctx_read(int flags)
     }
 }
 
+/* ---- tranche 2: node-context containers read at the current stack position */
+static void read_described(const char *kind, const char *label, const char *name, const char *payload_kind, long long ival,
+                           const char *first_descr_name, char *first_descr, int flags)
+{
+    /* the node itself, then its children; a description the API returns separately (ReferenceStateDescription,
+       NormDefinitions) is the FIRST Descriptor_t child the writer created */
+    push(kind, 1, label, 1);
+    if (!strcmp(payload_kind, "none")) r_none(NULL, name);
+    else if (!strcmp(payload_kind, "enum")) r_enum(NULL, name, (int)ival);
+    else r_ints1(NULL, name, 1, &ival);
+    int shift = 0;
+    if (first_descr) { r_str("/Descriptor_t:1", first_descr_name, first_descr); shift = 1; }
+    if (flags & F_DESCR) {
+        int n = 0;
+        if (!go()) {
+            CHK(cg_ndescriptors(&n));
+            for (int i = 1; i <= n; i++) {
+                char nm[64], sub[64]; char *text = NULL;
+                if (cg_descriptor_read(i, nm, &text)) { nerr++; continue; }
+                sprintf(sub, "/Descriptor_t:%d", i + shift);
+                r_str(sub, nm, text ? text : "");
+                if (text) cg_free(text);
+            }
+        }
+    }
+    ctx_read(flags & ~F_DESCR);
+    pop(1);
+}
+
+static void read_common_t2(int is_base)
+{
+    /* children that bases and zones share: ReferenceState_t, ConvergenceHistory_t, IntegralData_t, FlowEquationSet_t,
+       RotatingCoordinates_t */
+    int n, rc;
+    if (!go()) {
+        char *d = NULL;
+        rc = cg_state_read(&d);
+        if (rc == CG_OK) { read_described("ReferenceState_t.ReferenceState", "ReferenceState_t", "ReferenceState", "none", 0,
+                                          "ReferenceStateDescription", (d && *d) ? d : NULL, F_DDDU | F_ARRAYS); if (d) cg_free(d); }
+        else if (rc != CG_NODE_NOT_FOUND) { nerr++; printf("X %s cg_state_read %d\n", RP, rc); }
+    }
+    if (!go()) {
+        char *d = NULL; int it = 0;
+        rc = cg_convergence_read(&it, &d);
+        if (rc == CG_OK) { read_described("ConvergenceHistory_t", "ConvergenceHistory_t", is_base ? "GlobalConvergenceHistory" : "ZoneConvergenceHistory",
+                                          "ints", it, "NormDefinitions", (d && *d) ? d : NULL, F_DDDU | F_ARRAYS); if (d) cg_free(d); }
+        else if (rc != CG_NODE_NOT_FOUND) { nerr++; printf("X %s cg_convergence_read %d\n", RP, rc); }
+    }
+    if (!go()) {
+        n = 0; CHK(cg_nintegrals(&n));
+        for (int i = 1; i <= n; i++) {
+            char nm[64];
+            if (go()) break;
+            if (cg_integral_read(i, nm)) { nerr++; continue; }
+            push("IntegralData_t", i, "IntegralData_t", i);
+            r_none(NULL, nm);
+            ctx_read(F_DDDU | F_ARRAYS);
+            pop(1);
+        }
+    }
+    if (!go()) {
+        int ed = 0, gf = 0, f1, f2, f3, f4, f5;
+        rc = cg_equationset_read(&ed, &gf, &f1, &f2, &f3, &f4, &f5);
+        if (rc == CG_OK) {
+            push("FlowEquationSet_t.FlowEquationSet", 1, "FlowEquationSet_t", 1);
+            r_none(NULL, "FlowEquationSet");
+            if (ed) { long long v = ed; r_ints1("/\"int\".EquationDimension:1", "EquationDimension", 1, &v); }
+            if (gf && !go()) {
+                CGNS_ENUMT(GoverningEquationsType_t) gt;
+                CHK(cg_governing_read(&gt));
+                push("GoverningEquations_t.GoverningEquations", 1, "GoverningEquations_t", 1);
+                r_enum(NULL, "GoverningEquations", (int)gt);
+                ctx_read(F_DESCR | F_UDATA);
+                pop(1);
+            }
+            ctx_read(F_DDDU);
+            pop(1);
+        } else if (rc != CG_NODE_NOT_FOUND) { nerr++; printf("X %s cg_equationset_read %d\n", RP, rc); }
+    }
+    if (!go()) {
+        float rate[3] = {0, 0, 0}, center[3] = {0, 0, 0};
+        rc = cg_rotating_read(rate, center);
+        if (rc == CG_OK) {
+            cgsize_t d = cur_phys;
+            push("RotatingCoordinates_t.RotatingCoordinates", 1, "RotatingCoordinates_t", 1);
+            r_none(NULL, "RotatingCoordinates");
+            ctx_read(F_DDDU | F_ARRAYS);
+            (void)d;
+            pop(1);
+        } else if (rc != CG_NODE_NOT_FOUND) { nerr++; printf("X %s cg_rotating_read %d\n", RP, rc); }
+    }
+}
+
 /* a container with arrays and the usual children, reached by goto */
 static void simple_container(const char *kind, int idx, const char *label, const char *name, int flags)
 {
@@ -668,6 +763,38 @@ static void read_zone(int B, int Z)
         }
     }
     pop(1);
+    /* ---- tranche 2 under the zone */
+    read_common_t2(0);
+    n = 0; CHK(cg_ndiscrete(fn, B, Z, &n));
+    for (int d = 1; d <= n; d++) {
+        char dn[64];
+        CHK(cg_discrete_read(fn, B, Z, d, dn));
+        push("DiscreteData_t", d, "DiscreteData_t", d);
+        r_none(NULL, dn);
+        ctx_read(F_DDDU | F_LOC | F_RIND | F_ARRAYS);
+        pop(1);
+    }
+    n = 0; CHK(cg_n_rigid_motions(fn, B, Z, &n));
+    for (int r = 1; r <= n; r++) {
+        char rn[64]; CGNS_ENUMT(RigidGridMotionType_t) rt;
+        CHK(cg_rigid_motion_read(fn, B, Z, r, rn, &rt));
+        push("RigidGridMotion_t", r, "RigidGridMotion_t", r);
+        r_enum(NULL, rn, (int)rt);
+        ctx_read(F_DDDU | F_ARRAYS);
+        pop(1);
+    }
+    n = 0; CHK(cg_n_arbitrary_motions(fn, B, Z, &n));
+    for (int a = 1; a <= n; a++) {
+        char an[64]; CGNS_ENUMT(ArbitraryGridMotionType_t) at;
+        CHK(cg_arbitrary_motion_read(fn, B, Z, a, an, &at));
+        push("ArbitraryGridMotion_t", a, "ArbitraryGridMotion_t", a);
+        r_enum(NULL, an, (int)at);
+        ctx_read(F_DDDU | F_LOC | F_RIND | F_ARRAYS);
+        pop(1);
+    }
+    { char zn[64]; int rc2 = cg_ziter_read(fn, B, Z, zn);
+      if (rc2 == CG_OK) { push("ZoneIterativeData_t", 1, "ZoneIterativeData_t", 1); r_none(NULL, zn); ctx_read(F_DDDU | F_ARRAYS); pop(1); }
+      else if (rc2 != CG_NODE_NOT_FOUND) { nerr++; printf("X %s cg_ziter_read %d\n", RP, rc2); } }
     /* ---- connectivities */
     { int nzc = 0; CHK(cg_nzconns(fn, B, Z, &nzc));
       for (int c = 1; c <= nzc; c++) {
@@ -786,6 +913,17 @@ static void read_family(int B, int F)
         ctx_read(F_DESCR | F_UDATA);
         pop(1);
     }
+    if (opt_multifam && !go()) {
+        int nm = 0, rc2 = cg_nmultifam(&nm);
+        if (rc2) { nerr++; printf("X %s cg_nmultifam %d\n", RP, rc2); }
+        for (int i = 1; i <= nm; i++) {
+            char nam[64], fam[1024], sub[64];
+            if (go()) break;
+            if (cg_multifam_read(i, nam, fam)) { nerr++; continue; }
+            sprintf(sub, "/AdditionalFamilyName_t:%d", i);
+            r_str(sub, nam, fam);
+        }
+    }
     CHK(cg_nfamily_names(fn, B, F, &nn));
     for (int i = 1; i <= nn; i++) {
         char nm[64], fam[1024], sub[64];
@@ -801,7 +939,12 @@ static void do_read(const char *file)
     int rc, nb = 0; float ver = 0; cgsize_t one = 1;
     RP[0] = 0; RD = 0; GD = 0; nerr = 0;
     rc = cg_open(file, CG_MODE_READ, &fn);
-    if (rc) { ERR(rc, "open r"); printf("E read open:%d\n", rc); return; }
+    if (rc) {
+        char msg[64]; const char *e = cg_get_error(); int k = 0;
+        for (; *e && k < 48; e++) msg[k++] = ((*e >= 'a' && *e <= 'z') || (*e >= 'A' && *e <= 'Z') || *e == '_') ? *e : '.';
+        msg[k] = 0;
+        ERR(rc, "open r"); printf("E read open:%d %s\n", rc, msg); return;
+    }
     CHK(cg_version(fn, &ver));
     r_arr("/CGNSLibraryVersion_t.CGNSLibraryVersion:1", "CGNSLibraryVersion", "R4", 1, &one, &ver, 4);
     CHK(cg_nbases(fn, &nb));
@@ -813,6 +956,19 @@ static void do_read(const char *file)
         push("CGNSBase_t", B, NULL, 0);
         v[0] = cd; v[1] = pd; r_ints1(NULL, name, 2, v);
         ctx_read(F_DDDU);
+        read_common_t2(1);
+        { CGNS_ENUMT(SimulationType_t) st; int rc2 = cg_simulation_type_read(fn, B, &st);
+          if (rc2 == CG_OK && st != CGNS_ENUMV(SimulationTypeNull)) r_enum("/SimulationType_t.SimulationType:1", "SimulationType", (int)st);
+          else if (rc2 != CG_OK && rc2 != CG_NODE_NOT_FOUND) { nerr++; printf("X %s cg_simulation_type_read %d\n", RP, rc2); } }
+        { char bn[64]; int ns = 0; int rc2 = cg_biter_read(fn, B, bn, &ns);
+          if (rc2 == CG_OK) { long long v = ns; push("BaseIterativeData_t", 1, "BaseIterativeData_t", 1); r_ints1(NULL, bn, 1, &v); ctx_read(F_DDDU | F_ARRAYS); pop(1); }
+          else if (rc2 != CG_NODE_NOT_FOUND) { nerr++; printf("X %s cg_biter_read %d\n", RP, rc2); } }
+        { float g[3] = {0, 0, 0}; int rc2 = cg_gravity_read(fn, B, g);
+          if (rc2 == CG_OK) { push("Gravity_t.Gravity", 1, "Gravity_t", 1); r_none(NULL, "Gravity"); ctx_read(F_DDDU | F_ARRAYS); pop(1); }
+          else if (rc2 != CG_NODE_NOT_FOUND) { nerr++; printf("X %s cg_gravity_read %d\n", RP, rc2); } }
+        { float a1[3] = {0, 0, 0}, a2[3] = {0, 0, 0}; int rc2 = cg_axisym_read(fn, B, a1, a2);
+          if (rc2 == CG_OK) { push("Axisymmetry_t.Axisymmetry", 1, "Axisymmetry_t", 1); r_none(NULL, "Axisymmetry"); ctx_read(F_DDDU | F_ARRAYS); pop(1); }
+          else if (rc2 != CG_NODE_NOT_FOUND) { nerr++; printf("X %s cg_axisym_read %d\n", RP, rc2); } }
         n = 0; CHK(cg_nfamilies(fn, B, &n));
         for (int F = 1; F <= n; F++) read_family(B, F);
         n = 0; CHK(cg_nzones(fn, B, &n));
@@ -848,6 +1004,7 @@ int main(void)
             ERR(rc, "cfg");
             printf("c %d\n", rc);
         }
+        else if (!strcmp(c, "opt")) { if (!strcmp(W[1], "multifam")) opt_multifam = atoi(W[2]); printf("c 0\n"); }
         else if (!strcmp(c, "open")) {
             rc = cg_open(W[2], W[1][0] == 'w' ? CG_MODE_WRITE : W[1][0] == 'r' ? CG_MODE_READ : CG_MODE_MODIFY, &fn);
             ERR(rc, "open"); printf("c %d\n", rc);
